@@ -1,4 +1,9 @@
-"""Per-property configuration of bin/check (one entry per claimed property)."""
+"""Per-property configuration of bin/check: one JSON fragment per claimed property in /verif/registry/Cxx.json
+   {"check": {...}, "manifest": {...}}  (see docs/CONVENTIONS.md)."""
+import json
+import os
+
+_DIR = os.path.join(os.path.dirname(os.path.dirname(os.path.abspath(__file__))), "registry")
 
 COMMON_TRUSTED = [
     "Coq 8.16.1 kernel (coqc; thorough tier re-checks the property's .vo with coqchk); vm_compute is used for "
@@ -13,51 +18,11 @@ COMMON_TRUSTED = [
     "srcfacts (syn-based translator) for the facts regenerated from the source into coq/gen/*.v",
 ]
 
-PROPS = {
-    "C16": {
-        "props_module": "C16",
-        "coq_targets": ["props/C16.vo"],
-        "model_targets": ["model/SyncState.vo"],
-        "theorems": ["C16_no_panic", "C16_inflight_bounded", "C16_no_double_flight",
-                     "C16_bounded_retries", "C16_round_sorted", "C16_progress"],
-        "allowed_axioms": [],
-        "harness": "c16",
-        "profiles": ["debug"],
-        "rule": "operation sequences over BlockchainSyncState (announce incl. peer 0 broadcast / build picture "
-                "with a set of already-known hashes / selection round / fetched / failed / removed): exhaustive "
-                "sequences over a 10-letter alphabet to a depth bound, random sequences of length 4..60 over "
-                "3 peers x <=9 hashes with consistent and inconsistent ids, and scripted retry-exhaustion runs "
-                "(>1000 ops); non-trivial = at least one round handed out a block; distinct by input text",
-        "trusted": [
-            "hook verif_snapshot / verif_build_peer_block_picture (cfg saito_verif) exposing the private deques",
-        ],
-        "modelled": "hash-map iteration order across peers (per-peer computations are independent; observations "
-                    "are sorted by peer); the tokio RwLock around the peer collection in add_entry; log output "
-                    "(the trace! that unwraps front()/back() is modelled as a panic site and proved unreachable)",
-        "assumptions": [
-            "peer indices are allocated from 1 (PeerCounter::get_next_index), i.e. index 0 is never a peer",
-            "hash order in the model is numeric order; the harness uses big-endian hashes so that byte order "
-            "coincides",
-        ],
-    },
-}
+PROPS, MANIFEST_TEXT = {}, {}
+for _f in sorted(os.listdir(_DIR)):
+    if _f.endswith(".json"):
+        _j = json.load(open(os.path.join(_DIR, _f)))
+        PROPS[_f[:-5]] = _j["check"]
+        MANIFEST_TEXT[_f[:-5]] = _j["manifest"]
 
 NOT_APPLICABLE = {}
-
-MANIFEST_TEXT = {
-    "C16": {
-        "text": "Machine-checked proof (Coq, closed under the global context) over an executable model of "
-                "BlockchainSyncState for every operation sequence, batch size and peer set: no panic (the usize "
-                "quota subtraction never underflows), in-flight fetches per peer <= batch, (id,hash) unique per "
-                "peer, hand-outs per entry <= MAX_RETRIES+1, each round sorted by height with everything left "
-                "queued sorting after it, and one-round progress. The model is tied to the code by differential "
-                "execution against the real struct (snapshot hook) on exhaustive short and random long sequences, "
-                "plus a direct oracle of the property on the implementation that supplies replays.",
-        "design_ref": "DESIGN.md section 8, C16",
-        "note": "Trusted: Coq kernel, the hand-written model (validated by the correspondence run, not verified "
-                "against rustc semantics), harness + snapshot hook. Liveness is proved as one-round progress, not "
-                "as an unbounded-fairness statement. 'Same block' means same (id, hash) as in the code; a hostile "
-                "peer announcing one hash under two heights gets two entries (stated in the theorem).",
-        "technique": "Coq proof by invariant induction over operation lists + differential correspondence check",
-    },
-}
